@@ -120,3 +120,62 @@ def riz_row(row, epoch, zi, mapping, h, q):
     """row = (start epoch of the rise named by the q-th entry of level h, h, that entry's crossing)."""
     return (h in mapping and 0 <= q and q < len(mapping[h])
             and row == (epoch[zi[mapping[h][q][0]][0]], h, mapping[h][q][1]))
+
+
+@contract("spowtd.rise:find_rise_offsets#reference", db=True,
+          args={"connection": "connection", "reference_zeta_mm": "real"}, returns="none")
+@contract("spowtd.rise:find_rise_offsets", db=True,
+          args={"connection": "connection", "reference_zeta_mm": "none"}, returns="none")
+def _find_rise_offsets(connection, reference_zeta_mm):
+    """C20: the step commits exactly once, as its last database action, and never writes afterwards."""
+    requires(not db_sealed())
+    modifies("__db__")
+    may_raise(ValueError)
+    may_raise(AssertionError)
+    may_raise(IndexError)
+    may_raise(KeyError)
+    may_raise(TypeError)
+    may_raise(LinAlgError)
+    ensures(db_sealed())
+
+
+RECESSION_LOOPS = 4
+
+
+@contract("spowtd.recession:compute_offsets#reference", db=True,
+          args={"cursor": "cursor", "reference_zeta_mm": "real"}, returns="none", nonlinear="nra")
+@contract("spowtd.recession:compute_offsets", db=True,
+          args={"cursor": "cursor", "reference_zeta_mm": "none"}, returns="none")
+def _compute_offsets(cursor, reference_zeta_mm):
+    """C20 typestate for the recession step (its C09 / C13 content is covered by the bounded stand-ins
+    in this revision): writes only before the commit; nothing committed here."""
+    requires(not db_sealed())
+    modifies("__db__")
+    may_raise(ValueError)
+    may_raise(AssertionError)
+    may_raise(IndexError)
+    may_raise(KeyError)
+    may_raise(TypeError)
+    may_raise(LinAlgError)
+    ensures(not db_sealed())
+    ghost(before="raise ValueError('Reference zeta", do=lambda: cut(not is_integer(reference_zeta_mm / delta_z_mm)))
+    loop(0, types={"series": "list[tuple[array[real],array[real]]]"}, inv=lambda it: not db_sealed())
+    loop(1, inv=lambda it: not db_sealed())
+    loop(2, inv=lambda it: not db_sealed())
+    loop(3, inv=lambda it: not db_sealed())
+
+
+@contract("spowtd.recession:find_recession_offsets#reference", db=True,
+          args={"connection": "connection", "reference_zeta_mm": "real"}, returns="none")
+@contract("spowtd.recession:find_recession_offsets", db=True,
+          args={"connection": "connection", "reference_zeta_mm": "none"}, returns="none")
+def _find_recession_offsets(connection, reference_zeta_mm):
+    requires(not db_sealed())
+    modifies("__db__")
+    may_raise(ValueError)
+    may_raise(AssertionError)
+    may_raise(IndexError)
+    may_raise(KeyError)
+    may_raise(TypeError)
+    may_raise(LinAlgError)
+    ensures(db_sealed())
